@@ -357,7 +357,52 @@ pub fn fuzz_entry(bytes: &[u8]) -> Verdict {
     part_flips(bytes, &mut st)
 }
 
-pub fn replay(part: &str, bytes: &[u8], _case: &Value, stats: &mut Stats) -> Verdict {
+/// Structural replay of a routes case: start position + moves, compared with the same position
+/// from a FEN (with its counters) or reached by another move order.
+fn replay_routes(case: &Value) -> Option<Verdict> {
+    let start = Pos::from_fen(case.get("start")?.as_str()?).ok()?.0;
+    let mvs = |k: &str| -> Option<Vec<Mv>> {
+        let mut p = start.clone();
+        let mut out = Vec::new();
+        for t in case.get(k)?.as_array()? {
+            let m = p.find_uci(t.as_str()?)?;
+            p = p.make(m);
+            out.push(m);
+        }
+        Some(out)
+    };
+    let run = |a: &Board, b: &Board, how: &str| -> Verdict {
+        if hashes(a) != hashes(b) {
+            let n = fresh_draw_recheck(true, a, b);
+            return Err(Failure::new("same-position-different-hash", json!({"how": how, "start": case["start"], "fresh_draws_failed_of_8": n})));
+        }
+        Ok(())
+    };
+    if let (Some(m), Some(fen)) = (mvs("moves"), case.get("fen").and_then(|x| x.as_str())) {
+        let b1 = match play_engine(&start, &m) {
+            Ok(b) => b,
+            Err(f) => return Some(Err(f)),
+        };
+        let bf = Board::new(fen);
+        return Some(run(&b1, &bf, "by play vs by FEN with counters"));
+    }
+    if let (Some(r1), Some(r2)) = (mvs("route1"), mvs("route2")) {
+        let (b1, b2) = match (play_engine(&start, &r1), play_engine(&start, &r2)) {
+            (Ok(a), Ok(b)) => (a, b),
+            (Err(f), _) | (_, Err(f)) => return Some(Err(f)),
+        };
+        return Some(run(&b1, &b2, "two move orders"));
+    }
+    None
+}
+
+pub fn replay(part: &str, bytes: &[u8], case: &Value, stats: &mut Stats) -> Verdict {
+    KDRAWS.with(|k| *k.borrow_mut() = 8);
+    if part == "routes" {
+        if let Some(v) = replay_routes(case) {
+            return v;
+        }
+    }
     match part {
         "routes" => part_routes(bytes, stats),
         "flips" => part_flips(bytes, stats),
